@@ -38,6 +38,9 @@ def run(chk, binary):
         prefix = [V.any_cmd(rng) for _ in range(rng.choice([0, 0, 1, 1, 2, 3]))]   # reach a cursor by earlier commands
         r = rng.random()
         cmd = V.nonedit(rng) if r < 0.8 else V.edit(rng)
+        if r < 0.08:
+            # a selection that goes back and forth over the place where v was pressed
+            cmd = "v" + "".join(rng.choice(["b", "h", "k", "w", "l", "j", "e", "ge", "0", "$", "B", "W", "2h", "2l"]) for _ in range(rng.randint(2, 4)))
         keys = prefix + [cmd]
         # any index is reachable (by l/j); start there, then the optional earlier commands
         start = rng.randint(0, max(0, len(text) - 1)) if rng.random() < 0.7 else 0
